@@ -25,6 +25,10 @@ func c15(p *core.Prog, r *core.Report) {
 	r.Rule("C15-R2", "E6 provenance", 5, "heap index back-pointers maintained")
 	r.Rule("C15-R3", "E6 paths", 4, "selection restores the heap")
 	r.Rule("C15-R4", "constants/guards", 4, "score tiers and the no-peers condition")
+	r.Rule("C15-R6", "E6 provenance", 3, "tried peers and their hosts are recorded and handed to selection (shared with C17)")
+	r.Alias("C17-R4", "C15-R6")
+	c17State(p, r)
+	r.Alias("C17-R4", "")
 	r.Rule("C15-R5", "E6 shape/paths", 6, "heap order is (score, order) ascending; score changes are stored and re-heapified")
 	c15Order(p, r)
 
@@ -253,7 +257,14 @@ func c15(p *core.Prog, r *core.Report) {
 				if bo, isB := ret.Results[0].(*ssa.BinOp); isB && bo.Op == token.ADD {
 					for _, side := range []ssa.Value{bo.X, bo.Y} {
 						if k, isK := core.ConstInt(side); isK && k == math.MaxInt32 {
-							offset = true
+							// the lower tier is taken exactly when the inbound count is zero
+							for _, cm := range factsAt(ret.Block()).cmps {
+								ex, isEx := cm.X.(*ssa.Extract)
+								k0, isK0 := core.ConstInt(cm.Y)
+								if isEx && ex.Index == 0 && callResult(ex.Tuple, "Peer.NumConnections") != nil && isK0 && k0 == 0 && cm.Op == token.EQL {
+									offset = true
+								}
+							}
 						}
 					}
 				}
@@ -353,30 +364,16 @@ func c16(p *core.Prog, r *core.Report) {
 		fn := a.Fn.Name()
 		r.Check(fn == "addConnection" || fn == "removeClosedConn", "C16-R1", fname(a.Fn), "write to Channel.conns", p.Pos(a.Instr.Pos()), "only addConnection / removeClosedConn", "the channel's connection table is modified elsewhere")
 	}
-	if f := mustFunc(p, r, "", "Channel", "addConnection"); f != nil {
-		d := p.NewDomain("", "connectionState")
-		dc := p.NewDomain("", "ChannelState")
-		ok1, ok2 := false, false
-		core.EachInstr(f, func(i ssa.Instruction) {
-			mu, isMU := i.(*ssa.MapUpdate)
-			if !isMU {
-				return
-			}
-			fs := factsAt(mu.Block())
-			ok1 = fs.hasCmp(func(v ssa.Value) bool { return callResult(v, "Connection.readState") != nil }, []token.Token{token.EQL}, d.Min(d.OfName("connectionActive")))
-			// channel state client or listening: via enum flow
-			ip := core.NewEnumInterp(p, dc)
-			fl := ip.Flow(f, core.Ctx{})
-			core.EachInstr(f, func(j ssa.Instruction) {
-				if ld, isLd := j.(*ssa.UnOp); isLd && core.LoadedField(ld) != nil && core.LoadedField(ld).Name() == "state" && ld.Type().String() == dc.T.String() {
-					s, reach := fl.ValueAt(ld, mu)
-					if reach && s&^dc.OfName("ChannelClient", "ChannelListening") == 0 {
-						ok2 = true
-					}
-				}
-			})
-		})
-		r.Check(ok1 && ok2, "C16-R1", fname(f), "tracked only if the connection is active and the channel is not closing", p.Pos(f.Pos()), "both guards dominate the insert", fmt.Sprintf("connection can be tracked in another state (connActive=%v channelOpen=%v)", ok1, ok2))
+	channelTracksOnlyOpen(p, r, "C16-R1")
+	// one Peer object per host:port: the root list creates a peer only after a
+	// lookup miss made under its write lock (a second object for the same
+	// address would carry connections the root peer does not list)
+	if f := mustFunc(p, r, "", "RootPeerList", "Add"); f != nil {
+		rm := p.Field("", "RootPeerList", "peersByHostPort")
+		miss, locked := insertAfterLockedMiss(p, f, rm, "RootPeerList", "RWMutex")
+		r.Check(miss && locked, "C16-R1", fname(f), "root list: peer created only after a lookup miss under the write lock", p.Pos(f.Pos()),
+			"the insert is dominated by a failed lookup of the same key made with the write lock held",
+			fmt.Sprintf("two peers can be created for one host:port (miss dominating=%v, under the write lock=%v)", miss, locked))
 	}
 	if f := mustFunc(p, r, "", "Peer", "connectionCloseStateChange"); f != nil {
 		var c1, c2 ssa.Instruction
@@ -613,7 +610,7 @@ func insertAfterLockedMiss(p *core.Prog, f *ssa.Function, mapF *types.Var, recv,
 			if mu != nil && locks.At(lk)[mu] == core.WHeld && locks.At(upd)[mu] == core.WHeld {
 				locked = true
 			}
-			return true
+			return false // keep looking: an earlier optimistic lookup may match first
 		}, false)
 	})
 	return
@@ -746,5 +743,37 @@ func c15Order(p *core.Prog, r *core.Report) {
 	if f := mustFunc(p, r, "", "subChannelMap", "updatePeer"); f != nil {
 		ok := len(core.CallsIn(f, "PeerList.onPeerChange")) == 1
 		r.Check(ok, "C15-R5", fname(f), "isolated sub-channel lists re-score the peer", p.Pos(f.Pos()), "Peers().onPeerChange(p) in the loop", "isolated sub-channel lists keep stale scores")
+	}
+}
+
+// channelTracksOnlyOpen: Channel.addConnection inserts a connection into the
+// channel's table only if the connection is active and the channel is in the
+// client or listening state (shared by C16 and C07: a connection admitted while
+// the channel is closing is never closed by it and keeps it from terminating).
+func channelTracksOnlyOpen(p *core.Prog, r *core.Report, rule string) {
+	if f := mustFunc(p, r, "", "Channel", "addConnection"); f != nil {
+		d := p.NewDomain("", "connectionState")
+		dc := p.NewDomain("", "ChannelState")
+		ok1, ok2 := false, false
+		core.EachInstr(f, func(i ssa.Instruction) {
+			mu, isMU := i.(*ssa.MapUpdate)
+			if !isMU {
+				return
+			}
+			fs := factsAt(mu.Block())
+			ok1 = fs.hasCmp(func(v ssa.Value) bool { return callResult(v, "Connection.readState") != nil }, []token.Token{token.EQL}, d.Min(d.OfName("connectionActive")))
+			// channel state client or listening: via enum flow
+			ip := core.NewEnumInterp(p, dc)
+			fl := ip.Flow(f, core.Ctx{})
+			core.EachInstr(f, func(j ssa.Instruction) {
+				if ld, isLd := j.(*ssa.UnOp); isLd && core.LoadedField(ld) != nil && core.LoadedField(ld).Name() == "state" && ld.Type().String() == dc.T.String() {
+					s, reach := fl.ValueAt(ld, mu)
+					if reach && s&^dc.OfName("ChannelClient", "ChannelListening") == 0 {
+						ok2 = true
+					}
+				}
+			})
+		})
+		r.Check(ok1 && ok2, rule, fname(f), "tracked only if the connection is active and the channel is not closing", p.Pos(f.Pos()), "both guards dominate the insert", fmt.Sprintf("connection can be tracked in another state (connActive=%v channelOpen=%v)", ok1, ok2))
 	}
 }
